@@ -1,33 +1,34 @@
 #!/bin/bash
 # check.sh <property> [quick|thorough]  — rebuilds the simulator against /repo's current working tree and runs
 # the check of one property. Exit 0: held on everything explored; 1: VIOLATION line printed; 2: build/harness trouble.
+# check.sh replay <file> replays a recorded trace.
+root="$(cd "$(dirname "$0")" && pwd)"
 prop="$1"; tier="${2:-${VERIF_TIER:-quick}}"
+bin="$root/bin"
 if [ "$prop" = "replay" ]; then
   shift
-  cd /verif/sim || exit 2
-  export GOFLAGS=-mod=mod GOPROXY=off GOSUMDB=off GOTOOLCHAIN=local GOWORK=off
-  /verif/build.sh >&2 || exit 2
-  exec /verif/bin/archesim replay "$@"
+  "$root/build.sh" all >&2 || exit 2
+  exec "$bin/archesim" replay "$@"
 fi
 seed="${VERIF_SEED:-1}"
-/verif/build.sh "$prop" >&2 || { echo "build failed" >&2; exit 2; }
-evdir="${VERIF_EVIDENCE_DIR:-/verif/evidence}"; mkdir -p "$evdir" /verif/replays
+"$root/build.sh" "$prop" >&2 || { echo "build failed" >&2; exit 2; }
+evdir="${VERIF_EVIDENCE_DIR:-$root/evidence}"; mkdir -p "$evdir" "$root/replays"
 level=exploration
 case "$prop" in C09|C10) level=fault_enumeration;; esac
-bins=/verif/bin/archesim
-case "$prop" in C01|C09|C16) bins=/verif/bin/archesim,/verif/bin/archesim,/verif/bin/archesim,/verif/bin/archesim_tiny;; esac
-case "$prop" in C14) bins=/verif/bin/archesim_126,/verif/bin/archesim_126,/verif/bin/archesim_plain,/verif/bin/archesim;; esac
+bins="$bin/archesim"
+case "$prop" in C01|C09|C16) bins="$bin/archesim,$bin/archesim,$bin/archesim,$bin/archesim_tiny";; esac
+case "$prop" in C14) bins="$bin/archesim_126,$bin/archesim_126,$bin/archesim_plain,$bin/archesim";; esac
+common=(-tier "$tier" -seed "$seed" -evidence "$evdir/$prop.json" -out "$root/replays")
 case "$prop" in
-  C13|C18|C19) exec /verif/bin/archesim special "$prop" -tier "$tier" -seed "$seed" -evidence "$evdir/$prop.json";;
+  C13|C18) exec "$bin/archesim" special "$prop" "${common[@]}";;
+  C19) exec "$bin/archesim" special "$prop" "${common[@]}" -racebin "$bin/archesim_race";;
 esac
 if [ "$prop" = "C14" ]; then
-  /verif/bin/archesim run -prop "$prop" -tier "$tier" -seed "$seed" -bins "$bins" -level "$level" \
-    -evidence "$evdir/$prop.json" -known /verif/known_findings.json -out /verif/replays; rc=$?
+  "$bin/archesim" run -prop "$prop" "${common[@]}" -bins "$bins" -level "$level" -known "$root/known_findings.json"; rc=$?
   secs=6; [ "$tier" = thorough ] && secs=60
-  /verif/bin/archesim special C14 -seed "$seed" -seconds $secs -procs 4 -evidence "$evdir/$prop.json"; rc2=$?
-  [ $rc = 1 ] || [ $rc2 = 1 ] && exit 1
-  [ $rc = 0 ] && [ $rc2 = 0 ] && exit 0
+  "$bin/archesim" special C14 -seed "$seed" -seconds $secs -procs 4 -evidence "$evdir/$prop.json" -bin "$bin/gcstress" -out "$root/replays"; rc2=$?
+  if [ $rc = 1 ] || [ $rc2 = 1 ]; then exit 1; fi
+  if [ $rc = 0 ] && [ $rc2 = 0 ]; then exit 0; fi
   exit 2
 fi
-exec /verif/bin/archesim run -prop "$prop" -tier "$tier" -seed "$seed" -bins "$bins" -level "$level" \
-  -evidence "$evdir/$prop.json" -known /verif/known_findings.json -out /verif/replays
+exec "$bin/archesim" run -prop "$prop" "${common[@]}" -bins "$bins" -level "$level" -known "$root/known_findings.json"
